@@ -177,6 +177,11 @@ func (e *daemonEngine) body(res *RunResult) {
 		cc.chain = NewRefChain(cc.ref, ep.master, ep.group.GenesisSeed)
 		e.rec.Count("probe:dkg_completed", 1)
 	}
+	if len(sc.DKGSteps) > 0 {
+		e.runDKGSteps(res)
+		e.shutdown()
+		return
+	}
 	if sc.DKGOnly {
 		res.NonTrivial = true
 		e.shutdown()
